@@ -86,8 +86,8 @@ Proof. repeat split; reflexivity. Qed.
 
 (* the doubled stat size is applied to Rstat and Twstat, passed by value or by pointer, in all of
    encode, decode and size9p (a form missing from one of them makes size and bytes disagree) *)
-Definition expected_stat_arms : list (list string) :=
-  [["*MessageRstat"; "MessageRstat"]; ["*MessageTwstat"; "MessageTwstat"]].
+Definition expected_stat_arms : list string :=
+  ["*MessageRstat"; "*MessageTwstat"; "MessageRstat"; "MessageTwstat"].
 
 Lemma stat_arms_agree :
   gen_enc_stat_arms = expected_stat_arms /\ gen_dec_stat_arms = expected_stat_arms /\ gen_size_stat_arms = expected_stat_arms.
